@@ -847,6 +847,14 @@ class DistributedShampoo(torch.optim.Optimizer):
                     masked_filtered_grad_list,
                     bias_correction1,
                 )
+            elif beta3 == beta1:
+                # Here the returned list still aliases the filtered gradient state. A preconditioner that returns
+                # its input (SGD grafting, blocks without any preconditioned dimension) would let the in-place
+                # updates of the search direction overwrite that state, so hand out a copy instead.
+                masked_filtered_grad_list = tuple(
+                    torch.clone(filtered_grad)
+                    for filtered_grad in masked_filtered_grad_list
+                )
         else:
             masked_filtered_grad_list = state_lists[MASKED_BLOCKED_GRADS]
 
